@@ -1,7 +1,8 @@
 SPECIFICATION Spec
 CONSTANTS
-  Accts = {"a", "b", "c"}
+  Accts = {a, b, c}
   MAXU = 3
   MaxActs = 3
 INVARIANTS InvExec InvSim InvChain InvSufficient
+SYMMETRY Sym
 CHECK_DEADLOCK FALSE
